@@ -204,12 +204,19 @@ def run(ctx):  # noqa: C901, PLR0912, PLR0915
     pr = repo.func(f'{W}.WSDiscovery._handle_received_probe')
     g = cfg_of(pr)
     fs = calls_in(pr.node, 'filter_services')
-    ok = len(fs) == 1 and [unparse(a) for a in fs[0].args] in (
-        ['self._local_services.values()', 'probe.Types', 'scopes'],
-        ['self._local_services.values()', 'probe.Types', 'probe.Scopes']) and \
-        ('scopes = probe.Scopes' in xsrc(pr) or 'probe.Scopes' in unparse(fs[0]))
     sp = g.nodes_calling('_send_probe_match')
-    ok = ok and bool(sp) and all(('services', True) in g.facts_at(n) and unparse(c.args[0]) == 'services' for n, c in sp)
+    ok = len(fs) == 1 and bool(sp)
+    if ok:
+        fn_ = g.holder(fs[0])
+        a_ = [g.origin_text(fn_, a) for a in fs[0].args]
+        # filter_services(<local services>, <probe>.Types, <probe>.Scopes) - the probe local may have any name
+        ok = len(a_) == 3 and a_[0] == 'self._local_services.values()' and a_[1].endswith('.Types') and \
+            a_[2].endswith('.Scopes') and a_[1][:-len('.Types')] == a_[2][:-len('.Scopes')]
+    for n, c in sp:
+        # what is sent is the (non-empty) result of that call
+        v = c.args[0] if c.args else None
+        d = g.unique_def(n, v.id) if isinstance(v, ast.Name) else None
+        ok = ok and d is not None and g.def_value(d, v.id) is fs[0] and (v.id, True) in g.facts_at(n)
     ctx.ob('C14.R4', 'Probe answer', ok,
            'a Probe is answered with filter_services(local services, probe.Types, probe.Scopes), only if non-empty', fi=pr)
     fsv = repo.func(f'{W}.filter_services')
